@@ -4,7 +4,7 @@
 cd "$(dirname "$(readlink -f "$0")")/.."
 . ./goenv.sh
 T=${DEV_TMP:-/var/tmp/verif-dev}
-mkdir -p $T/scratch $T/bin
+mkdir -p $T/scratch $T/bin $T/replays
 RACE=""; BIN=$T/h.test
 if [ "${2:-}" = race ]; then RACE=-race; BIN=$T/h.race.test; fi
 (cd harness && $GO test -c $RACE -tags verif -o $BIN .) || exit 2
